@@ -154,15 +154,18 @@ theorem decode3 {p : Prog} {A B : Bytes} (o : Op) (d : Nat) (hk : o.kind = 3) (h
   unfold decodeAt
   rw [code_at hc]
   have hr : readU16 p (A.length + 1) = some (d, A.length + 3) := by
-    have hc' : p.code = (A ++ [o.toByte]) ++ (UInt8.ofNat (d / 256) :: UInt8.ofNat (d % 256) :: B) := by rw [hc]; simp
-    have := readU16_at hc'
-    simp only [List.length_append, List.length_cons, List.length_nil] at this
-    rw [this]
+    have hdrop : p.code.drop (A.length + 1) = UInt8.ofNat (d / 256) :: UInt8.ofNat (d % 256) :: B := by
+      rw [hc]
+      have := List.drop_length_add_append (l₁ := A) (l₂ := o.toByte :: UInt8.ofNat (d / 256) :: UInt8.ofNat (d % 256) :: B) 1
+      simpa using this
+    unfold readU16
+    rw [hdrop]
     have h1 : (UInt8.ofNat (d / 256)).toNat = d / 256 := u8_toNat_ofNat _ (by omega)
     have h2 : (UInt8.ofNat (d % 256)).toNat = d % 256 := u8_toNat_ofNat _ (by omega)
-    rw [h1, h2]
-    simp only [Option.some.injEq, Prod.mk.injEq]
-    omega
+    have hd2 := Nat.div_add_mod d 256
+    simp only [h1, h2, Option.some.injEq, Prod.mk.injEq]
+    clear h1 h2
+    exact ⟨by omega, trivial⟩
   simp only [Option.bind_eq_bind, Option.bind_some, ofByte_toByte]
   cases o <;> simp [Op.kind] at hk <;> simp [hr]
 
@@ -178,7 +181,9 @@ theorem decode2 {p : Prog} {A B : Bytes} (x y : Nat) (hx : x < 2 ^ 64) (hy : y <
   have hr2 : readUv p (A.length + 1 + (uvEnc x).length) = some (y, A.length + 1 + (uvEnc x).length + (uvEnc y).length) := by
     have hc' : p.code = (A ++ [Op.DEFBLOCK.toByte] ++ uvEnc x) ++ (uvEnc y ++ B) := by rw [hc]; simp
     have := readUv_at hy hc'
-    simpa using this
+    simp only [List.length_append, List.length_cons, List.length_nil] at this
+    rw [show A.length + 1 + (uvEnc x).length = A.length + (0 + 1) + (uvEnc x).length by omega]
+    exact this
   simp [ofByte_toByte, hr, hr2]
 
 theorem decode4 {p : Prog} {A B : Bytes} (x : Nat) (opt : UInt8) (hx : x < 2 ^ 64)
@@ -193,7 +198,9 @@ theorem decode4 {p : Prog} {A B : Bytes} (x : Nat) (opt : UInt8) (hx : x < 2 ^ 6
   have hb : p.code[A.length + 1 + (uvEnc x).length]? = some opt := by
     have hc' : p.code = (A ++ [Op.BIND.toByte] ++ uvEnc x) ++ (opt :: B) := by rw [hc]; simp
     have := code_at hc'
-    simpa using this
+    simp only [List.length_append, List.length_cons, List.length_nil] at this
+    rw [show A.length + 1 + (uvEnc x).length = A.length + (0 + 1) + (uvEnc x).length by omega]
+    exact this
   simp [ofByte_toByte, hr, hb]
 
 theorem vmStep_exec {p : Prog} {vm : VM} {i : Instr} (hd : decodeAt p vm.pc = some i) :
@@ -201,5 +208,954 @@ theorem vmStep_exec {p : Prog} {vm : VM} {i : Instr} (hd : decodeAt p vm.pc = so
   obtain ⟨⟨b, hb, ho⟩, _⟩ := decodeAt_facts hd
   unfold vmStep
   simp only [Bool.false_eq_true, if_false, hb, ho, hd]
+
+end Bclv
+
+namespace Bclv
+
+theorem runN_one (p : Prog) (vm : VM) : runN p 1 vm = vmStep p false vm := by
+  simp only [runN]
+  cases vmStep p false vm <;> rfl
+
+/-- The VM started at `vm` reaches offset `target` in the state the evaluator gives,
+or halts with the evaluator's runtime error. -/
+def Sim (p : Prog) (vm : VM) (target : Nat) (r : Res) : Prop :=
+  ∃ n, match r with
+    | .ok s' => ∃ vm', runN p n vm = .next vm' ∧ vm'.sem = s' ∧ vm'.pc = target
+    | .err pos msg => ∃ vm', runN p n vm = .halt vm' (.rt (rtText p pos msg))
+    | .wrong => True
+
+theorem Sim.bind {p : Prog} {vm : VM} {t1 t2 : Nat} {r : Res} {f : Sem → Res}
+    (h1 : Sim p vm t1 r)
+    (h2 : ∀ vm1 s1, r = .ok s1 → vm1.sem = s1 → vm1.pc = t1 → Sim p vm1 t2 (f s1)) :
+    Sim p vm t2 (r.bind f) := by
+  obtain ⟨n1, h1⟩ := h1
+  cases r with
+  | ok s1 =>
+    obtain ⟨vm1, hr, hs, hpc⟩ := h1
+    obtain ⟨n2, h2'⟩ := h2 vm1 s1 rfl hs hpc
+    refine ⟨n1 + n2, ?_⟩
+    simp only [Res.bind]
+    cases hf : f s1 with
+    | ok s2 =>
+      simp only [hf] at h2'
+      obtain ⟨vm2, hr2, hs2, hpc2⟩ := h2'
+      exact ⟨vm2, by rw [runN_next_then hr]; exact hr2, hs2, hpc2⟩
+    | err pos msg =>
+      simp only [hf] at h2'
+      obtain ⟨vm2, hr2⟩ := h2'
+      exact ⟨vm2, by rw [runN_next_then hr]; exact hr2⟩
+    | wrong => trivial
+  | err pos msg =>
+    obtain ⟨vm1, hr⟩ := h1
+    exact ⟨n1, vm1, hr⟩
+  | wrong => exact ⟨0, trivial⟩
+
+/-- One instruction. -/
+theorem Sim.one {p : Prog} {vm : VM} {target : Nat} {r : Res} {i : Instr}
+    (hd : decodeAt p vm.pc = some i)
+    (h : match r with
+      | .ok s' => ∃ vm', exec p i vm = .next vm' ∧ vm'.sem = s' ∧ vm'.pc = target
+      | .err pos msg => ∃ vm', exec p i vm = .halt vm' (.rt (rtText p pos msg))
+      | .wrong => True) : Sim p vm target r := by
+  refine ⟨1, ?_⟩
+  cases r with
+  | ok s' => simp only [runN_one, vmStep_exec hd]; exact h
+  | err pos msg => simp only [runN_one, vmStep_exec hd]; exact h
+  | wrong => trivial
+
+theorem rtError_eq {p : Prog} {vm : VM} {pos : Nat} (msg : Bytes) (h : p.positions[vm.pc - 1]? = some pos) :
+    rtError p vm msg = .halt vm (.rt (rtText p pos msg)) := by
+  simp [rtError, h, rtText]
+
+/-- Positions of a placed instruction whose bytes all carry `pos`. -/
+theorem Placed.pos_at {p : Prog} {pre post : PCode} {pos : Nat} {bs : Bytes} (h : Placed p pre (atPos pos bs) post)
+    (k : Nat) (hk : k < bs.length) : p.positions[pre.length + k]? = some pos := by
+  have := h.bytes.2
+  rw [this, atPos_snd]
+  have e : pre.length = (List.map Prod.snd pre).length := by simp
+  rw [e, get_at]
+  rw [List.getElem?_append_left (by simpa using hk)]
+  simp [hk]
+
+theorem Placed.code_eq {p : Prog} {pre post : PCode} {pos : Nat} {bs : Bytes} (h : Placed p pre (atPos pos bs) post) :
+    p.code = pre.map Prod.fst ++ (bs ++ post.map Prod.fst) := by
+  have := h.bytes.1
+  rw [this, atPos_fst]
+
+end Bclv
+
+namespace Bclv
+
+def Expr.WF : Expr → Prop
+  | .lit _ _ => True
+  | .const idx _ => idx < 2 ^ 64
+  | .getLocal slot _ => slot < 2 ^ 64
+  | .getField idx _ => idx < 2 ^ 64
+  | .setLocal slot e _ => slot < 2 ^ 64 ∧ e.WF
+  | .setField idx e _ => idx < 2 ^ 64 ∧ e.WF
+  | .un _ e _ => e.WF
+  | .bin _ a b _ => a.WF ∧ b.WF
+  | .and a b _ => a.WF ∧ b.WF ∧ 1 + sizeE b < 65536
+  | .or a b _ => a.WF ∧ b.WF ∧ 1 + sizeE b < 65536
+  | .bad => True
+
+theorem sem_stack {vm1 vm2 : VM} (h : vm1.sem = vm2.sem) : vm1.stack = vm2.stack := congrArg Sem.stack h
+theorem sem_blocks {vm1 vm2 : VM} (h : vm1.sem = vm2.sem) : vm1.blocks = vm2.blocks := congrArg Sem.blocks h
+
+/-- What `Sim.one` asks of a single instruction. -/
+def StepSim (p : Prog) (st : Step) (target : Nat) (r : Res) : Prop :=
+  match r with
+  | .ok s' => ∃ vm', st = .next vm' ∧ vm'.sem = s' ∧ vm'.pc = target
+  | .err pos msg => ∃ vm', st = .halt vm' (.rt (rtText p pos msg))
+  | .wrong => True
+
+theorem Sim.one' {p : Prog} {vm : VM} {target : Nat} {r : Res} {i : Instr}
+    (hd : decodeAt p vm.pc = some i) (h : StepSim p (exec p i vm) target r) : Sim p vm target r := by
+  apply Sim.one hd
+  cases r <;> exact h
+
+theorem push_sim {p : Prog} {s : Sem} {v : Value} {pos target : Nat} (vm2 : VM)
+    (hs : vm2.sem = s) (hpc : vm2.pc = target) (hp : p.positions[target - 1]? = some pos) :
+    StepSim p (push p vm2 v) target (pushV s v pos) := by
+  subst hs
+  unfold push pushV StepSim
+  by_cases hfull : vm2.stack.length = stackSize
+  · have : (vm2.sem).stack.length = stackSize := hfull
+    simp only [hfull, this, if_true]
+    exact ⟨vm2, rtError_eq _ (by rw [hpc]; exact hp)⟩
+  · have : ¬ (vm2.sem).stack.length = stackSize := hfull
+    simp only [hfull, this, if_false]
+    exact ⟨_, rfl, by simp [VM.sem], by simpa using hpc⟩
+
+theorem opAt_eq (o : Op) (pos : Nat) : opAt o pos = atPos pos [o.toByte] := rfl
+theorem opArg_eq (o : Op) (x pos : Nat) : opArg o x pos = atPos pos (o.toByte :: uvEnc x) := rfl
+
+theorem Sim.after {p : Prog} {vm vm' : VM} {k t : Nat} {r : Res} (h : runN p k vm = .next vm')
+    (hs : Sim p vm' t r) : Sim p vm t r := by
+  obtain ⟨n, hn⟩ := hs
+  refine ⟨k + n, ?_⟩
+  cases r with
+  | ok s' => obtain ⟨v2, h2, h3, h4⟩ := hn; exact ⟨v2, by rw [runN_next_then h]; exact h2, h3, h4⟩
+  | err pos msg => obtain ⟨v2, h2⟩ := hn; exact ⟨v2, by rw [runN_next_then h]; exact h2⟩
+  | wrong => trivial
+
+theorem Sim.done {p : Prog} {vm : VM} {t : Nat} (hpc : vm.pc = t) : Sim p vm t (.ok vm.sem) :=
+  ⟨0, vm, rfl, rfl, hpc⟩
+
+theorem jumpAt_eq (o : Op) (d pos : Nat) :
+    jumpAt o d pos = atPos pos [o.toByte, UInt8.ofNat (d / 256), UInt8.ofNat (d % 256)] := rfl
+
+/-- exact effect of one placed instruction -/
+theorem step_jfalse {p : Prog} {pre post : PCode} {d pos : Nat} {vm : VM} {v : Value} {rest : List Value}
+    (hpl : Placed p pre (jumpAt .JFALSE d pos) post) (hd : d < 65536) (hpc : vm.pc = pre.length)
+    (hst : vm.stack = v :: rest) :
+    ∃ vm', runN p 1 vm = .next vm' ∧ vm'.sem = vm.sem
+      ∧ vm'.pc = (if isFalsey v then pre.length + 3 + d else pre.length + 3) := by
+  rw [jumpAt_eq] at hpl
+  have hc := hpl.code_eq
+  have hdec : decodeAt p vm.pc = some { op := .JFALSE, a := d, next := pre.length + 3 } := by
+    rw [hpc]
+    have := decode3 (A := pre.map Prod.fst) .JFALSE d rfl hd (by simpa using hc)
+    simpa using this
+  rw [runN_one, vmStep_exec hdec]
+  simp only [exec, hst]
+  exact ⟨_, rfl, by simp [VM.sem, hst], rfl⟩
+
+theorem step_jump {p : Prog} {pre post : PCode} {d pos : Nat} {vm : VM}
+    (hpl : Placed p pre (jumpAt .JUMP d pos) post) (hd : d < 65536) (hpc : vm.pc = pre.length) :
+    ∃ vm', runN p 1 vm = .next vm' ∧ vm'.sem = vm.sem ∧ vm'.pc = pre.length + 3 + d := by
+  rw [jumpAt_eq] at hpl
+  have hc := hpl.code_eq
+  have hdec : decodeAt p vm.pc = some { op := .JUMP, a := d, next := pre.length + 3 } := by
+    rw [hpc]
+    have := decode3 (A := pre.map Prod.fst) .JUMP d rfl hd (by simpa using hc)
+    simpa using this
+  rw [runN_one, vmStep_exec hdec]
+  simp only [exec]
+  exact ⟨_, rfl, by simp [VM.sem], rfl⟩
+
+theorem step_pop {p : Prog} {pre post : PCode} {pos : Nat} {vm : VM} {v : Value} {rest : List Value}
+    (hpl : Placed p pre (opAt .POP pos) post) (hpc : vm.pc = pre.length) (hst : vm.stack = v :: rest) :
+    ∃ vm', runN p 1 vm = .next vm' ∧ vm'.sem = { vm.sem with stack := rest } ∧ vm'.pc = pre.length + 1 := by
+  rw [opAt_eq] at hpl
+  have hc := hpl.code_eq
+  have hdec : decodeAt p vm.pc = some { op := .POP, next := pre.length + 1 } := by
+    rw [hpc]
+    have := decode0 (A := pre.map Prod.fst) .POP rfl (by simpa using hc)
+    simpa using this
+  rw [runN_one, vmStep_exec hdec]
+  simp only [exec, hst]
+  exact ⟨_, rfl, by simp [VM.sem], rfl⟩
+
+theorem sim_unop {p : Prog} {pre post : PCode} {op : UnOp} {pos : Nat} {vm : VM}
+    (hpl : Placed p pre (opAt op.op pos) post) (hpc : vm.pc = pre.length) :
+    Sim p vm (pre.length + 1) (unopSem op pos vm.sem) := by
+  rw [opAt_eq] at hpl
+  have hc := hpl.code_eq
+  have hp := hpl.pos_at 0 (by simp)
+  have hdec : decodeAt p vm.pc = some { op := op.op, next := pre.length + 1 } := by
+    rw [hpc]
+    have := decode0 (A := pre.map Prod.fst) op.op (by cases op <;> rfl) (by simpa using hc)
+    simpa using this
+  apply Sim.one' hdec
+  have hstk : (vm.sem).stack = vm.stack := rfl
+  cases op <;> simp only [UnOp.op, exec, unopSem, hstk]
+  · cases hst : vm.stack with
+    | nil => trivial
+    | cons v rest =>
+      cases v <;> simp only [StepSim]
+      all_goals first
+        | exact ⟨_, rfl, by simp [VM.sem], rfl⟩
+        | exact ⟨_, rtError_eq _ (by simpa using hp)⟩
+  · cases hst : vm.stack with
+    | nil => trivial
+    | cons v rest =>
+      simp only
+      by_cases hnum : v.isNumber = true
+      · simp only [hnum, if_true, StepSim]
+        exact ⟨_, rfl, by simp [VM.sem, hst], rfl⟩
+      · simp only [hnum, if_false, StepSim]
+        exact ⟨_, rtError_eq _ (by simpa using hp)⟩
+  · cases hst : vm.stack with
+    | nil => trivial
+    | cons v rest =>
+      simp only [StepSim]
+      exact ⟨_, rfl, by simp [VM.sem], rfl⟩
+
+theorem step_arith {p : Prog} {pre post : PCode} {o : Op} {ar : ArOp} {pos : Nat} {vm : VM}
+    {bv av : Value} {rest : List Value}
+    (hpl : Placed p pre (opAt o pos) post) (hk : o.kind = 0) (har : ArOp.ofOp o = some ar)
+    (hpc : vm.pc = pre.length) (hst : vm.stack = bv :: av :: rest) :
+    match binop ar o.name av bv with
+    | .ok v => ∃ vm', runN p 1 vm = .next vm' ∧ vm'.sem = { vm.sem with stack := v :: rest } ∧ vm'.pc = pre.length + 1
+    | .err msg => ∃ vm', runN p 1 vm = .halt vm' (.rt (rtText p pos msg)) := by
+  rw [opAt_eq] at hpl
+  have hc := hpl.code_eq
+  have hp := hpl.pos_at 0 (by simp)
+  have hdec : decodeAt p vm.pc = some { op := o, next := pre.length + 1 } := by
+    rw [hpc]
+    have := decode0 (A := pre.map Prod.fst) o hk (by simpa using hc)
+    simpa using this
+  rw [runN_one, vmStep_exec hdec]
+  have hex : exec p { op := o, next := pre.length + 1 } vm =
+      match binop ar o.name av bv with
+      | .ok v => .next { vm with pc := pre.length + 1, opsRead := vm.opsRead + 1, stack := v :: rest }
+      | .err msg => rtError p { vm with pc := pre.length + 1, opsRead := vm.opsRead + 1 } msg := by
+    cases o <;> simp [ArOp.ofOp] at har <;> subst har <;> simp only [exec, hst, ArOp.ofOp] <;> rfl
+  rw [hex]
+  cases binop ar o.name av bv with
+  | ok v => exact ⟨_, rfl, by simp [VM.sem], rfl⟩
+  | err msg => exact ⟨_, rtError_eq _ (by simpa using hp)⟩
+
+theorem step_not {p : Prog} {pre post : PCode} {pos : Nat} {vm : VM} {v : Value} {rest : List Value}
+    (hpl : Placed p pre (opAt .NOT pos) post) (hpc : vm.pc = pre.length) (hst : vm.stack = v :: rest) :
+    ∃ vm', runN p 1 vm = .next vm' ∧ vm'.sem = { vm.sem with stack := .bool (isFalsey v) :: rest }
+      ∧ vm'.pc = pre.length + 1 := by
+  rw [opAt_eq] at hpl
+  have hc := hpl.code_eq
+  have hdec : decodeAt p vm.pc = some { op := .NOT, next := pre.length + 1 } := by
+    rw [hpc]
+    have := decode0 (A := pre.map Prod.fst) .NOT rfl (by simpa using hc)
+    simpa using this
+  rw [runN_one, vmStep_exec hdec]
+  simp only [exec, hst]
+  exact ⟨_, rfl, by simp [VM.sem], rfl⟩
+
+theorem binop_prim (op : BinOp) :
+    ∃ o, op.ops.head? = some o ∧ o.kind = 0 ∧ ArOp.ofOp o = some op.prim.1 ∧ o.name = op.prim.2.2
+      ∧ op.ops = (if op.prim.2.1 then [o, .NOT] else [o]) := by
+  cases op <;> exact ⟨_, rfl, rfl, rfl, rfl, rfl⟩
+
+theorem sim_bin {p : Prog} {pre post : PCode} {op : BinOp} {pos : Nat} {vm : VM}
+    (hpl : Placed p pre (op.ops.map (fun o => (o.toByte, pos))) post) (hpc : vm.pc = pre.length) :
+    Sim p vm (pre.length + op.ops.length) (binSem op pos vm.sem) := by
+  obtain ⟨o, _, hk, har, hname, hops⟩ := binop_prim op
+  have hstk : (vm.sem).stack = vm.stack := rfl
+  unfold binSem
+  rw [hstk]
+  match hst : vm.stack with
+  | [] => exact ⟨0, trivial⟩
+  | [_] => exact ⟨0, trivial⟩
+  | bv :: av :: rest =>
+    simp only
+    by_cases hneg : op.prim.2.1 = true
+    · -- two instructions: the primitive, then NOT
+      rw [hops] at hpl ⊢
+      simp only [hneg, if_true, List.map_cons, List.map_nil, List.length_cons, List.length_nil] at hpl ⊢
+      have hpl1 : Placed p pre (opAt o pos) (opAt .NOT pos ++ post) := by
+        have : [(o.toByte, pos), (Op.NOT.toByte, pos)] = opAt o pos ++ opAt .NOT pos := rfl
+        rw [this] at hpl; exact hpl.left
+      have hpl2 : Placed p (pre ++ opAt o pos) (opAt .NOT pos) post := by
+        have : [(o.toByte, pos), (Op.NOT.toByte, pos)] = opAt o pos ++ opAt .NOT pos := rfl
+        rw [this] at hpl; exact hpl.right
+      have h1 := step_arith hpl1 hk har hpc hst
+      rw [hname] at h1
+      cases hb : binop op.prim.1 op.prim.2.2 av bv with
+      | ok v =>
+        simp only [hb] at h1
+        obtain ⟨vm1, hr1, hs1, hpc1⟩ := h1
+        have hst1 : vm1.stack = v :: rest := by have := congrArg Sem.stack hs1; simpa [VM.sem] using this
+        obtain ⟨vm2, hr2, hs2, hpc2⟩ := step_not hpl2 (by simpa [opAt] using hpc1) hst1
+        refine ⟨2, vm2, ?_, ?_, ?_⟩
+        · rw [show (2 : Nat) = 1 + 1 from rfl, runN_next_then hr1]; exact hr2
+        · rw [hs2, hs1]
+        · simpa [opAt] using hpc2
+      | err msg =>
+        simp only [hb] at h1
+        obtain ⟨vm1, hr1⟩ := h1
+        exact ⟨1, vm1, hr1⟩
+    · rw [hops] at hpl ⊢
+      simp only [hneg, if_false, List.map_cons, List.map_nil, List.length_cons, List.length_nil] at hpl ⊢
+      have hpl1 : Placed p pre (opAt o pos) post := hpl
+      have h1 := step_arith hpl1 hk har hpc hst
+      rw [hname] at h1
+      cases hb : binop op.prim.1 op.prim.2.2 av bv with
+      | ok v =>
+        simp only [hb] at h1
+        obtain ⟨vm1, hr1, hs1, hpc1⟩ := h1
+        exact ⟨1, vm1, hr1, by rw [hs1]; simp [hneg], hpc1⟩
+      | err msg =>
+        simp only [hb] at h1
+        obtain ⟨vm1, hr1⟩ := h1
+        exact ⟨1, vm1, hr1⟩
+
+theorem compileE_correct (p : Prog) (e : Expr) (hwf : e.WF) :
+    ∀ (pre post : PCode) (vm : VM), Placed p pre (compileE e) post → vm.pc = pre.length →
+      Sim p vm (pre.length + sizeE e) (evalE p e vm.sem) := by
+  induction e with
+  | lit l pos =>
+    intro pre post vm hpl hpc
+    simp only [compileE, opAt_eq] at hpl
+    have hc := hpl.code_eq
+    have hp := hpl.pos_at 0 (by simp)
+    have hd : decodeAt p vm.pc = some { op := l.op, next := pre.length + 1 } := by
+      rw [hpc]
+      have := decode0 (A := pre.map Prod.fst) l.op (by cases l <;> rfl) (by simpa using hc)
+      simpa using this
+    apply Sim.one' hd
+    have := push_sim (p := p) (s := vm.sem) (v := l.value) (pos := pos) (target := pre.length + 1)
+      { vm with pc := pre.length + 1, opsRead := vm.opsRead + 1 } rfl rfl (by simpa using hp)
+    cases l <;> simpa [exec, Lit.op, Lit.value, evalE, sizeE] using this
+  | const idx pos =>
+    intro pre post vm hpl hpc
+    simp only [compileE, opArg_eq] at hpl
+    have hc := hpl.code_eq
+    have hp := hpl.pos_at (uvEnc idx).length (by simp)
+    have hd : decodeAt p vm.pc = some { op := .CONST, a := idx, next := pre.length + 1 + (uvEnc idx).length } := by
+      rw [hpc]
+      have := decode1 (A := pre.map Prod.fst) .CONST idx rfl hwf (by simpa using hc)
+      simpa using this
+    apply Sim.one' hd
+    simp only [exec, evalE, sizeE]
+    cases hci : p.consts[idx]? with
+    | none => trivial
+    | some v =>
+      have := push_sim (p := p) (s := vm.sem) (v := v) (pos := pos) (target := pre.length + (1 + (uvEnc idx).length))
+        { vm with pc := pre.length + 1 + (uvEnc idx).length, opsRead := vm.opsRead + 1 } rfl (by simp; omega)
+        (by rw [← hp]; congr 1; omega)
+      simpa [Nat.add_assoc] using this
+  | getLocal slot pos =>
+    intro pre post vm hpl hpc
+    simp only [compileE, opArg_eq] at hpl
+    have hc := hpl.code_eq
+    have hp := hpl.pos_at (uvEnc slot).length (by simp)
+    have hd : decodeAt p vm.pc = some { op := .GETLOCAL, a := slot, next := pre.length + 1 + (uvEnc slot).length } := by
+      rw [hpc]
+      have := decode1 (A := pre.map Prod.fst) .GETLOCAL slot rfl hwf (by simpa using hc)
+      simpa using this
+    apply Sim.one' hd
+    simp only [exec, evalE, sizeE]
+    by_cases hlt : slot < vm.stack.length
+    · have hlt' : slot < (vm.sem).stack.length := hlt
+      simp only [hlt, hlt', if_true]
+      have := push_sim (p := p) (s := vm.sem) (v := vm.stack.getD (vm.stack.length - 1 - slot) .nil) (pos := pos)
+        (target := pre.length + (1 + (uvEnc slot).length))
+        { vm with pc := pre.length + 1 + (uvEnc slot).length, opsRead := vm.opsRead + 1 } rfl (by simp; omega)
+        (by rw [← hp]; congr 1; omega)
+      simpa [Nat.add_assoc, VM.sem] using this
+    · have hlt' : ¬ slot < (vm.sem).stack.length := hlt
+      simp only [hlt', if_false]
+      trivial
+  | getField idx pos =>
+    intro pre post vm hpl hpc
+    simp only [compileE, opArg_eq] at hpl
+    have hc := hpl.code_eq
+    have hp := hpl.pos_at (uvEnc idx).length (by simp)
+    have hd : decodeAt p vm.pc = some { op := .GETFIELD, a := idx, next := pre.length + 1 + (uvEnc idx).length } := by
+      rw [hpc]
+      have := decode1 (A := pre.map Prod.fst) .GETFIELD idx rfl hwf (by simpa using hc)
+      simpa using this
+    apply Sim.one' hd
+    simp only [exec, evalE, sizeE]
+    cases hn : constStr p idx with
+    | none => trivial
+    | some name =>
+      simp only
+      by_cases hbe : vm.blocks.isEmpty = true
+      · have : (vm.sem).blocks.isEmpty = true := hbe
+        simp only [this, if_true]; trivial
+      · have hbe' : ¬ (vm.sem).blocks.isEmpty = true := hbe
+        simp only [hbe, hbe', if_false]
+        have hbl : (vm.sem).blocks = vm.blocks := rfl
+        rw [hbl]
+        cases hg : blockGet name vm.blocks with
+        | some v =>
+          have := push_sim (p := p) (s := vm.sem) (v := v) (pos := pos)
+            (target := pre.length + (1 + (uvEnc idx).length))
+            { vm with pc := pre.length + 1 + (uvEnc idx).length, opsRead := vm.opsRead + 1 } rfl (by simp; omega)
+            (by rw [← hp]; congr 1; omega)
+          simpa [Nat.add_assoc] using this
+        | none =>
+          simp only [StepSim]
+          exact ⟨_, rtError_eq _ (by simp only []; rw [← hp]; congr 1; omega)⟩
+  | bad => intro pre post vm _ _; exact ⟨0, trivial⟩
+  | un op e pos ih =>
+    intro pre post vm hpl hpc
+    simp only [compileE] at hpl
+    simp only [evalE, sizeE]
+    refine Sim.bind (ih hwf pre _ vm hpl.left hpc) ?_
+    intro vm1 s1 _ hs1 hpc1
+    subst hs1
+    have := sim_unop (op := op) hpl.right (by simpa [compileE_length] using hpc1)
+    simpa [compileE_length, Nat.add_assoc] using this
+  | bin op a b pos iha ihb =>
+    intro pre post vm hpl hpc
+    simp only [compileE] at hpl
+    simp only [evalE, sizeE]
+    refine Sim.bind (t1 := pre.length + sizeE a + sizeE b) (Sim.bind (iha hwf.1 pre _ vm hpl.left hpc) ?_) ?_
+    · intro vm1 s1 _ hs1 hpc1
+      subst hs1
+      have := ihb hwf.2 (pre ++ compileE a) _ vm1 hpl.right.left (by simpa [compileE_length] using hpc1)
+      simpa [compileE_length] using this
+    · intro vm2 s2 _ hs2 hpc2
+      subst hs2
+      have hpl3 : Placed p (pre ++ compileE a ++ compileE b) (op.ops.map (fun o => (o.toByte, pos))) post := by
+        have := hpl.right.right
+        simpa [List.append_assoc] using this
+      have := sim_bin (op := op) (vm := vm2) hpl3 (by simp [compileE_length]; omega)
+      simpa [compileE_length, Nat.add_assoc] using this
+  | setLocal slot e pos ih =>
+    intro pre post vm hpl hpc
+    simp only [compileE, opArg_eq] at hpl
+    simp only [evalE, sizeE]
+    refine Sim.bind (ih hwf.2 pre _ vm hpl.left hpc) ?_
+    intro vm1 s1 _ hs1 hpc1
+    subst hs1
+    have hpl2 := hpl.right
+    have hc := hpl2.code_eq
+    have hdec : decodeAt p vm1.pc = some { op := .SETLOCAL, a := slot, next := (pre ++ compileE e).length + 1 + (uvEnc slot).length } := by
+      rw [hpc1]
+      have := decode1 (A := (pre ++ compileE e).map Prod.fst) .SETLOCAL slot rfl hwf.1 (by simpa using hc)
+      simpa [compileE_length] using this
+    apply Sim.one' hdec
+    have hstk : (vm1.sem).stack = vm1.stack := rfl
+    simp only [exec, hstk]
+    cases hst : vm1.stack with
+    | nil => trivial
+    | cons top rest =>
+      simp only
+      by_cases hlt : slot < (top :: rest).length
+      · simp only [hlt, if_true, StepSim]
+        exact ⟨_, rfl, by simp [VM.sem, hst], by simp [compileE_length]; omega⟩
+      · simp only [hlt, if_false]; trivial
+  | setField idx e pos ih =>
+    intro pre post vm hpl hpc
+    simp only [compileE, opArg_eq] at hpl
+    simp only [evalE, sizeE]
+    refine Sim.bind (ih hwf.2 pre _ vm hpl.left hpc) ?_
+    intro vm1 s1 _ hs1 hpc1
+    subst hs1
+    have hpl2 := hpl.right
+    have hc := hpl2.code_eq
+    have hp := hpl2.pos_at (uvEnc idx).length (by simp)
+    have hdec : decodeAt p vm1.pc = some { op := .SETFIELD, a := idx, next := (pre ++ compileE e).length + 1 + (uvEnc idx).length } := by
+      rw [hpc1]
+      have := decode1 (A := (pre ++ compileE e).map Prod.fst) .SETFIELD idx rfl hwf.1 (by simpa using hc)
+      simpa [compileE_length] using this
+    apply Sim.one' hdec
+    have hstk : (vm1.sem).stack = vm1.stack := rfl
+    have hblk : (vm1.sem).blocks = vm1.blocks := rfl
+    simp only [exec, hstk, hblk]
+    cases hn : constStr p idx with
+    | none => trivial
+    | some name =>
+      cases hbl : vm1.blocks with
+      | nil => trivial
+      | cons top brest =>
+        cases hst : vm1.stack with
+        | nil => trivial
+        | cons v srest =>
+          simp only
+          cases hg : top.fields.get name with
+          | child c =>
+            simp only [StepSim]
+            exact ⟨_, rtError_eq _ (by simp only []; rw [← hp]; congr 1; omega)⟩
+          | none =>
+            simp only [StepSim]
+            exact ⟨_, rfl, by simp [VM.sem, hst, hbl], by simp [compileE_length]; omega⟩
+          | val x =>
+            simp only [StepSim]
+            exact ⟨_, rfl, by simp [VM.sem, hst, hbl], by simp [compileE_length]; omega⟩
+  | and a b pos iha ihb =>
+    intro pre post vm hpl hpc
+    simp only [compileE] at hpl
+    simp only [evalE, sizeE]
+    obtain ⟨hwa, hwb, hj⟩ := hwf
+    refine Sim.bind (iha hwa pre _ vm hpl.left hpc) ?_
+    intro vm1 s1 _ hs1 hpc1
+    subst hs1
+    have hstk : (vm1.sem).stack = vm1.stack := rfl
+    rw [hstk]
+    cases hst : vm1.stack with
+    | nil => exact ⟨0, trivial⟩
+    | cons v rest =>
+      simp only
+      have hplJ : Placed p (pre ++ compileE a) (jumpAt .JFALSE (1 + sizeE b) pos) (opAt .POP pos ++ compileE b ++ post) := by
+        have := hpl.right.left
+        simpa [List.append_assoc] using this
+      obtain ⟨vm2, hr2, hs2, hpc2⟩ := step_jfalse hplJ hj (by simpa [compileE_length] using hpc1) hst
+      by_cases hf : isFalsey v = true
+      · simp only [hf, if_true] at hpc2 ⊢
+        refine Sim.after hr2 ?_
+        rw [← hs2]
+        exact Sim.done (by simp [compileE_length] at hpc2; omega)
+      · simp only [hf, if_false] at hpc2 ⊢
+        have hplP : Placed p (pre ++ compileE a ++ jumpAt .JFALSE (1 + sizeE b) pos) (opAt .POP pos) (compileE b ++ post) := by
+          have := hpl.right.right.left
+          simpa [List.append_assoc] using this
+        have hst2 : vm2.stack = v :: rest := by have := congrArg Sem.stack hs2; simpa [VM.sem, hst] using this
+        obtain ⟨vm3, hr3, hs3, hpc3⟩ := step_pop hplP (by simp [compileE_length, jumpAt_length] at hpc2 ⊢; omega) hst2
+        have hplB : Placed p (pre ++ compileE a ++ jumpAt .JFALSE (1 + sizeE b) pos ++ opAt .POP pos) (compileE b) post := by
+          have := hpl.right.right.right
+          simpa [List.append_assoc] using this
+        have hB := ihb hwb _ _ vm3 hplB (by simp [compileE_length, jumpAt_length, opAt] at hpc3 ⊢; omega)
+        refine Sim.after hr2 (Sim.after hr3 ?_)
+        have hsem : vm3.sem = { vm1.sem with stack := rest } := by rw [hs3, hs2]
+        rw [hsem] at hB
+        have htgt : (pre ++ compileE a ++ jumpAt .JFALSE (1 + sizeE b) pos ++ opAt .POP pos).length + sizeE b
+            = pre.length + (sizeE a + (3 + (1 + sizeE b))) := by
+          simp [compileE_length, jumpAt_length, opAt]; omega
+        rw [htgt] at hB
+        exact hB
+  | or a b pos iha ihb =>
+    intro pre post vm hpl hpc
+    simp only [compileE] at hpl
+    simp only [evalE, sizeE]
+    obtain ⟨hwa, hwb, hj⟩ := hwf
+    refine Sim.bind (iha hwa pre _ vm hpl.left hpc) ?_
+    intro vm1 s1 _ hs1 hpc1
+    subst hs1
+    have hstk : (vm1.sem).stack = vm1.stack := rfl
+    rw [hstk]
+    cases hst : vm1.stack with
+    | nil => exact ⟨0, trivial⟩
+    | cons v rest =>
+      simp only
+      have hplJ : Placed p (pre ++ compileE a) (jumpAt .JFALSE 3 pos)
+          (jumpAt .JUMP (1 + sizeE b) pos ++ opAt .POP pos ++ compileE b ++ post) := by
+        have := hpl.right.left
+        simpa [List.append_assoc] using this
+      obtain ⟨vm2, hr2, hs2, hpc2⟩ := step_jfalse hplJ (by omega) (by simpa [compileE_length] using hpc1) hst
+      have hst2 : vm2.stack = v :: rest := by have := congrArg Sem.stack hs2; simpa [VM.sem, hst] using this
+      have hplP : Placed p (pre ++ compileE a ++ jumpAt .JFALSE 3 pos ++ jumpAt .JUMP (1 + sizeE b) pos) (opAt .POP pos) (compileE b ++ post) := by
+        have := hpl.right.right.right.left
+        simpa [List.append_assoc] using this
+      have hplB : Placed p (pre ++ compileE a ++ jumpAt .JFALSE 3 pos ++ jumpAt .JUMP (1 + sizeE b) pos ++ opAt .POP pos) (compileE b) post := by
+        have := hpl.right.right.right.right
+        simpa [List.append_assoc] using this
+      by_cases hf : isFalsey v = true
+      · simp only [hf, if_true] at hpc2 ⊢
+        obtain ⟨vm3, hr3, hs3, hpc3⟩ := step_pop hplP (by simp [compileE_length, jumpAt_length] at hpc2 ⊢; omega) hst2
+        have hB := ihb hwb _ _ vm3 hplB (by simp [compileE_length, jumpAt_length, opAt] at hpc3 ⊢; omega)
+        refine Sim.after hr2 (Sim.after hr3 ?_)
+        have hsem : vm3.sem = { vm1.sem with stack := rest } := by rw [hs3, hs2]
+        rw [hsem] at hB
+        have htgt : (pre ++ compileE a ++ jumpAt .JFALSE 3 pos ++ jumpAt .JUMP (1 + sizeE b) pos ++ opAt .POP pos).length + sizeE b
+            = pre.length + (sizeE a + (3 + (3 + (1 + sizeE b)))) := by
+          simp [compileE_length, jumpAt_length, opAt]; omega
+        rw [htgt] at hB
+        exact hB
+      · simp only [hf, if_false] at hpc2 ⊢
+        have hplK : Placed p (pre ++ compileE a ++ jumpAt .JFALSE 3 pos) (jumpAt .JUMP (1 + sizeE b) pos)
+            (opAt .POP pos ++ compileE b ++ post) := by
+          have := hpl.right.right.left
+          simpa [List.append_assoc] using this
+        obtain ⟨vm3, hr3, hs3, hpc3⟩ := step_jump (vm := vm2) hplK hj (by simp [compileE_length, jumpAt_length] at hpc2 ⊢; omega)
+        refine Sim.after hr2 (Sim.after hr3 ?_)
+        have hsem : vm3.sem = vm1.sem := by rw [hs3, hs2]
+        rw [← hsem]
+        exact Sim.done (by simp [compileE_length, jumpAt_length] at hpc3 ⊢; omega)
+
+end Bclv
+
+namespace Bclv
+
+/-! ## statements -/
+
+mutual
+def Stmt.WF : Stmt → Prop
+  | .var (some e) _ => e.WF
+  | .var none _ => True
+  | .print e _ => e.WF
+  | .eval e _ => e.WF
+  | .block ti ni _ body npop _ => ti < 2 ^ 64 ∧ ni < 2 ^ 64 ∧ npop < 2 ^ 64 ∧ body.WF
+  | .bind ti _ _ => ti < 2 ^ 64
+  | .bad => True
+def Stmts.WF : Stmts → Prop
+  | .nil => True
+  | .cons s rest => s.WF ∧ rest.WF
+end
+
+theorem popNCode_length (n pos : Nat) :
+    (popNCode n pos).length = if n = 0 then 0 else if n = 1 then 1 else 1 + (uvEnc n).length := by
+  unfold popNCode
+  split
+  · simp [*]
+  · split
+    · simp [*, opAt]
+    · simp [*, opArg_length]
+
+theorem sim_popN {p : Prog} {pre post : PCode} {n pos : Nat} {vm : VM} (hn : n < 2 ^ 64)
+    (hpl : Placed p pre (popNCode n pos) post) (hpc : vm.pc = pre.length) :
+    Sim p vm (pre.length + (popNCode n pos).length) (popSem n vm.sem) := by
+  have hstk : (vm.sem).stack = vm.stack := rfl
+  unfold popSem
+  rw [hstk]
+  by_cases h0 : n = 0
+  · subst h0
+    simp only [popNCode, if_true, List.length_nil, Nat.add_zero, Nat.zero_le, List.drop_zero]
+    exact Sim.done hpc
+  · by_cases h1 : n = 1
+    · subst h1
+      simp only [popNCode] at hpl ⊢
+      simp only [Nat.succ_ne_zero, if_false, if_true] at hpl ⊢
+      cases hst : vm.stack with
+      | nil => simp; exact ⟨0, trivial⟩
+      | cons v rest =>
+        obtain ⟨vm1, hr, hs, hpc1⟩ := step_pop hpl hpc hst
+        have : 1 ≤ (v :: rest).length := by simp
+        simp only [this, if_true, List.drop_succ_cons, List.drop_zero]
+        exact ⟨1, vm1, hr, hs, by simpa [opAt] using hpc1⟩
+    · simp only [popNCode, h0, h1, if_false, opArg_eq] at hpl ⊢
+      have hc := hpl.code_eq
+      have hdec : decodeAt p vm.pc = some { op := .POPN, a := n, next := pre.length + 1 + (uvEnc n).length } := by
+        rw [hpc]
+        have := decode1 (A := pre.map Prod.fst) .POPN n rfl hn (by simpa using hc)
+        simpa using this
+      apply Sim.one' hdec
+      simp only [exec]
+      by_cases hle : n ≤ vm.stack.length
+      · simp only [hle, if_true, StepSim]
+        exact ⟨_, rfl, by simp [VM.sem], by simp [atPos_length]; omega⟩
+      · simp only [hle, if_false]; trivial
+
+theorem sim_endblock {p : Prog} {pre post : PCode} {pos : Nat} {vm : VM}
+    (hpl : Placed p pre (opAt .ENDBLOCK pos) post) (hpc : vm.pc = pre.length) :
+    Sim p vm (pre.length + 1) (endBlockSem pos vm.sem) := by
+  rw [opAt_eq] at hpl
+  have hc := hpl.code_eq
+  have hp := hpl.pos_at 0 (by simp)
+  have hdec : decodeAt p vm.pc = some { op := .ENDBLOCK, next := pre.length + 1 } := by
+    rw [hpc]
+    have := decode0 (A := pre.map Prod.fst) .ENDBLOCK rfl (by simpa using hc)
+    simpa using this
+  apply Sim.one' hdec
+  have hblk : (vm.sem).blocks = vm.blocks := rfl
+  simp only [exec, endBlockSem, hblk]
+  match hbl : vm.blocks with
+  | [] => trivial
+  | [b] => exact ⟨_, rfl, by simp [VM.sem], rfl⟩
+  | child :: parent :: rest =>
+    simp only
+    cases hg : parent.fields.get child.key with
+    | none => exact ⟨_, rfl, by simp [VM.sem], rfl⟩
+    | val x => exact ⟨_, rtError_eq _ (by simpa using hp)⟩
+    | child c => exact ⟨_, rtError_eq _ (by simpa using hp)⟩
+
+theorem sim_print {p : Prog} {pre post : PCode} {pos : Nat} {vm : VM}
+    (hpl : Placed p pre (opAt .PRINT pos) post) (hpc : vm.pc = pre.length) :
+    Sim p vm (pre.length + 1) (printSem vm.sem) := by
+  rw [opAt_eq] at hpl
+  have hc := hpl.code_eq
+  have hdec : decodeAt p vm.pc = some { op := .PRINT, next := pre.length + 1 } := by
+    rw [hpc]
+    have := decode0 (A := pre.map Prod.fst) .PRINT rfl (by simpa using hc)
+    simpa using this
+  apply Sim.one' hdec
+  have hstk : (vm.sem).stack = vm.stack := rfl
+  simp only [exec, printSem, hstk]
+  cases hst : vm.stack with
+  | nil => trivial
+  | cons v rest => exact ⟨_, rfl, by simp [VM.sem], rfl⟩
+
+end Bclv
+
+namespace Bclv
+
+theorem sim_defblock {p : Prog} {pre post : PCode} {ti ni pos : Nat} {vm : VM}
+    (hti : ti < 2 ^ 64) (hni : ni < 2 ^ 64)
+    (hpl : Placed p pre (atPos pos (Op.DEFBLOCK.toByte :: (uvEnc ti ++ uvEnc ni))) post) (hpc : vm.pc = pre.length) :
+    Sim p vm (pre.length + (1 + (uvEnc ti).length + (uvEnc ni).length))
+      (if (vm.sem).blocks.length = blockStackSize then .err pos (str "blocks nested too deep")
+       else match constStr p ti, constStr p ni with
+        | some t, some n => .ok { vm.sem with blocks := .mk t n .nil :: (vm.sem).blocks }
+        | _, _ => .wrong) := by
+  have hc := hpl.code_eq
+  have hp := hpl.pos_at 0 (by simp)
+  have hdec : decodeAt p vm.pc = some { op := .DEFBLOCK, a := ti, b := ni, next := pre.length + 1 + (uvEnc ti).length + (uvEnc ni).length } := by
+    rw [hpc]
+    have := decode2 (A := pre.map Prod.fst) ti ni hti hni (by simpa using hc)
+    simpa using this
+  apply Sim.one' hdec
+  have hblk : (vm.sem).blocks = vm.blocks := rfl
+  simp only [exec, hblk]
+  by_cases hfull : vm.blocks.length = blockStackSize
+  · simp only [hfull, if_true, StepSim]
+    exact ⟨_, rtError_eq _ (by simp only []; rw [hpc]; simpa using hp)⟩
+  · simp only [hfull, if_false]
+    cases constStr p ti with
+    | none => trivial
+    | some t =>
+      cases constStr p ni with
+      | none => trivial
+      | some n => exact ⟨_, rfl, by simp [VM.sem], by simp; omega⟩
+
+theorem sim_bind {p : Prog} {pre post : PCode} {ti pos : Nat} {opt : UInt8} {vm : VM} (hti : ti < 2 ^ 64)
+    (hpl : Placed p pre (atPos pos (Op.BIND.toByte :: (uvEnc ti ++ [opt]))) post) (hpc : vm.pc = pre.length) :
+    Sim p vm (pre.length + (1 + (uvEnc ti).length + 1)) (bindSem p ti opt.toNat pos vm.sem) := by
+  have hc := hpl.code_eq
+  have hp0 := hpl.pos_at 0 (by simp)
+  have hpL := hpl.pos_at ((uvEnc ti).length + 1) (by simp)
+  have hdec : decodeAt p vm.pc = some { op := .BIND, a := ti, b := opt.toNat, next := pre.length + 1 + (uvEnc ti).length + 1 } := by
+    rw [hpc]
+    have := decode4 (A := pre.map Prod.fst) ti opt hti (by simpa using hc)
+    simpa using this
+  apply Sim.one' hdec
+  have hp0' : p.positions[vm.pc + 1 - 1]? = some pos := by rw [hpc]; simpa using hp0
+  have hpL' : p.positions[pre.length + 1 + (uvEnc ti).length + 1 - 1]? = some pos := by
+    rw [← hpL]; congr 1; omega
+  simp only [exec, bindSem, hp0']
+  have hbnd : (vm.sem).binding = vm.binding := rfl
+  rw [hbnd]
+  -- the two sides now differ only in the record they update; treat both binding cases
+  have main : ∀ (vm' : VM) (s : Sem), vm'.sem = s → vm'.pc = pre.length + 1 + (uvEnc ti).length + 1 →
+      StepSim p
+        (match constStr p ti with
+          | some bt =>
+            let sel := opt.toNat % 16
+            let tgt := opt.toNat / 16 * 16
+            let blocks := vm'.result.filter (fun b => b.typ = bt)
+            if blocks.isEmpty then rtError p vm' (str "bind: no blocks of type " ++ bt)
+            else if blocks.length ≠ 1 && sel = selOne then
+              rtError p vm' (str "bind: found " ++ natDec blocks.length ++ str " blocks of type " ++ bt
+                            ++ str " but expected just 1")
+            else
+              let first := blocks.headD default
+              let last := blocks.getLastD default
+              if tgt = tgtStruct && (sel = selOne || sel = selFirst) then .next { vm' with binding := some (.struct first) }
+              else if tgt = tgtStruct && sel = selLast then .next { vm' with binding := some (.struct last) }
+              else if tgt = tgtSlice && sel = selAll then .next { vm' with binding := some (.slice blocks) }
+              else if tgt = tgtSlice && (sel = selOne || sel = selFirst) then .next { vm' with binding := some (.slice [first]) }
+              else if tgt = tgtSlice && sel = selLast then .next { vm' with binding := some (.slice [last]) }
+              else rtError p vm' (str "invalid bind target and selector :0x" ++ padLeft 2 32 (hexLower opt.toNat))
+          | none => .panic vm')
+        (pre.length + (1 + (uvEnc ti).length + 1))
+        (match constStr p ti with
+          | some bt =>
+            let sel := opt.toNat % 16
+            let tgt := opt.toNat / 16 * 16
+            let blocks := s.result.filter (fun b => b.typ = bt)
+            if blocks.isEmpty then .err pos (str "bind: no blocks of type " ++ bt)
+            else if blocks.length ≠ 1 && sel = selOne then
+              .err pos (str "bind: found " ++ natDec blocks.length ++ str " blocks of type " ++ bt
+                            ++ str " but expected just 1")
+            else
+              let first := blocks.headD default
+              let last := blocks.getLastD default
+              if tgt = tgtStruct && (sel = selOne || sel = selFirst) then .ok { s with binding := some (.struct first) }
+              else if tgt = tgtStruct && sel = selLast then .ok { s with binding := some (.struct last) }
+              else if tgt = tgtSlice && sel = selAll then .ok { s with binding := some (.slice blocks) }
+              else if tgt = tgtSlice && (sel = selOne || sel = selFirst) then .ok { s with binding := some (.slice [first]) }
+              else if tgt = tgtSlice && sel = selLast then .ok { s with binding := some (.slice [last]) }
+              else .err pos (str "invalid bind target and selector :0x" ++ padLeft 2 32 (hexLower opt.toNat))
+          | none => .wrong) := by
+    intro vm' s hs hpc'
+    subst hs
+    have hres : (vm'.sem).result = vm'.result := rfl
+    have hrt : ∀ msg, rtError p vm' msg = .halt vm' (.rt (rtText p pos msg)) :=
+      fun msg => rtError_eq msg (by rw [hpc']; exact hpL')
+    cases constStr p ti with
+    | none => trivial
+    | some bt =>
+      simp only [hres, hrt]
+      repeat' split
+      all_goals first
+        | exact ⟨_, rfl⟩
+        | exact ⟨_, rfl, by simp [VM.sem], by simp [hpc']; omega⟩
+  cases hb : vm.binding with
+  | none => exact main _ _ (by simp [VM.sem, hb]) rfl
+  | some bnd => exact main _ _ (by simp [VM.sem, hb]) rfl
+
+end Bclv
+
+namespace Bclv
+
+mutual
+theorem compileS_correct (p : Prog) (st : Stmt) (hwf : st.WF) :
+    ∀ (pre post : PCode) (vm : VM), Placed p pre (compileS st) post → vm.pc = pre.length →
+      Sim p vm (pre.length + (compileS st).length) (evalS p st vm.sem) := by
+  intro pre post vm hpl hpc
+  cases st with
+  | bad => exact ⟨0, trivial⟩
+  | var init pos =>
+    cases init with
+    | some e =>
+      simp only [compileS] at hpl ⊢
+      simp only [evalS, compileE_length]
+      exact compileE_correct p e hwf pre post vm hpl hpc
+    | none =>
+      have h := compileE_correct p (.lit .nil pos) trivial pre post vm (by simpa [compileS, compileE, Lit.op] using hpl) hpc
+      simpa [compileS, evalS, evalE, Lit.value, sizeE, opAt] using h
+  | print e pos =>
+    simp only [compileS] at hpl ⊢
+    simp only [evalS, List.length_append, compileE_length]
+    refine Sim.bind (compileE_correct p e hwf pre _ vm hpl.left hpc) ?_
+    intro vm1 s1 _ hs1 hpc1
+    subst hs1
+    have := sim_print hpl.right (vm := vm1) (by simpa [compileE_length] using hpc1)
+    simpa [compileE_length, opAt, Nat.add_assoc] using this
+  | eval e pos =>
+    simp only [compileS] at hpl ⊢
+    simp only [evalS, List.length_append, compileE_length]
+    refine Sim.bind (compileE_correct p e hwf pre _ vm hpl.left hpc) ?_
+    intro vm1 s1 _ hs1 hpc1
+    subst hs1
+    have hpl2 : Placed p (pre ++ compileE e) (popNCode 1 pos) post := by
+      have := hpl.right; simpa [popNCode] using this
+    have := sim_popN (n := 1) (by decide) hpl2 (vm := vm1) (by simpa [compileE_length] using hpc1)
+    simpa [compileE_length, opAt, popNCode, Nat.add_assoc] using this
+  | bind ti opt pos =>
+    simp only [compileS] at hpl ⊢
+    have := sim_bind (opt := opt) hwf hpl hpc
+    simpa [evalS, atPos_length, Nat.add_assoc, Nat.add_comm] using this
+  | block ti ni openPos body npop closePos =>
+    obtain ⟨hti, hni, hnp, hbody⟩ := hwf
+    simp only [compileS] at hpl ⊢
+    simp only [evalS]
+    have hD := sim_defblock hti hni hpl.left.left.left hpc
+    have hblk : (vm.sem).blocks = vm.blocks := rfl
+    by_cases hfull : (vm.sem).blocks.length = blockStackSize
+    · simp only [hfull, if_true] at hD ⊢
+      obtain ⟨n, vm', hr⟩ := hD
+      exact ⟨n, vm', hr⟩
+    · simp only [hfull, if_false] at hD ⊢
+      cases hct : constStr p ti with
+      | none => exact ⟨0, trivial⟩
+      | some t =>
+        cases hcn : constStr p ni with
+        | none => exact ⟨0, trivial⟩
+        | some nm =>
+          simp only [hct, hcn] at hD ⊢
+          obtain ⟨n0, vm0, hr0, hs0, hpc0⟩ := hD
+          refine Sim.after hr0 ?_
+          rw [← hs0]
+          let D := atPos openPos (Op.DEFBLOCK.toByte :: (uvEnc ti ++ uvEnc ni))
+          have hlenD : D.length = 1 + (uvEnc ti).length + (uvEnc ni).length := by
+            simp [D, atPos_length]; omega
+          have hplB : Placed p (pre ++ D) (compileSs body) (popNCode npop closePos ++ opAt .ENDBLOCK closePos ++ post) := by
+            have := hpl.left.left.right
+            simpa [D, List.append_assoc] using this
+          refine Sim.bind (t1 := (pre ++ D ++ compileSs body ++ popNCode npop closePos).length)
+            (Sim.bind (t1 := (pre ++ D ++ compileSs body).length) ?_ ?_) ?_
+          · have := compileSs_correct p body hbody (pre ++ D) _ vm0 hplB (by simp [hlenD]; omega)
+            simpa [List.length_append, Nat.add_assoc] using this
+          · intro vm1 s1 _ hs1 hpc1
+            subst hs1
+            have hplP : Placed p (pre ++ D ++ compileSs body) (popNCode npop closePos) (opAt .ENDBLOCK closePos ++ post) := by
+              have := hpl.left.right
+              simpa [D, List.append_assoc] using this
+            have := sim_popN hnp hplP (vm := vm1) hpc1
+            simpa [List.length_append, Nat.add_assoc] using this
+          · intro vm2 s2 _ hs2 hpc2
+            subst hs2
+            have hplE : Placed p (pre ++ D ++ compileSs body ++ popNCode npop closePos) (opAt .ENDBLOCK closePos) post := by
+              have := hpl.right
+              simpa [D, List.append_assoc] using this
+            have := sim_endblock hplE (vm := vm2) hpc2
+            simpa [D, List.length_append, atPos_length, opAt, Nat.add_assoc] using this
+
+theorem compileSs_correct (p : Prog) (ss : Stmts) (hwf : ss.WF) :
+    ∀ (pre post : PCode) (vm : VM), Placed p pre (compileSs ss) post → vm.pc = pre.length →
+      Sim p vm (pre.length + (compileSs ss).length) (evalSs p ss vm.sem) := by
+  intro pre post vm hpl hpc
+  cases ss with
+  | nil => simpa [compileSs, evalSs] using Sim.done (p := p) hpc
+  | cons st rest =>
+    simp only [compileSs] at hpl ⊢
+    simp only [evalSs, List.length_append]
+    refine Sim.bind (compileS_correct p st hwf.1 pre _ vm hpl.left hpc) ?_
+    intro vm1 s1 _ hs1 hpc1
+    subst hs1
+    have := compileSs_correct p rest hwf.2 (pre ++ compileS st) post vm1 hpl.right (by simpa using hpc1)
+    simpa [List.length_append, Nat.add_assoc] using this
+end
+
+end Bclv
+
+namespace Bclv
+
+/-- A compiled program run from the initial state: the VM halts with the outcome the
+evaluator gives.  On success the final state is the evaluator's and the halt reason
+is `ok` exactly when the operand stack is empty. -/
+theorem compileP_correct (p : Prog) (t : Program) (hwf : t.body.WF) (hnp : t.npop < 2 ^ 64)
+    (hcode : p.code = (compileP t).map Prod.fst) (hpos : p.positions = (compileP t).map Prod.snd) :
+    ∃ n, match evalP p t with
+      | .ok s => ∃ vm', vm'.sem = s ∧
+          runN p n {} = .halt vm' (if s.stack.isEmpty then .ok
+            else .internal (str "internal error: non-empty stack on prog end; tos=" ++ natDec s.stack.length))
+      | .err pos msg => ∃ vm', runN p n {} = .halt vm' (.rt (rtText p pos msg))
+      | .wrong => True := by
+  have hpl : Placed p [] (compileSs t.body ++ popNCode t.npop t.endPos ++ opAt .RET t.endPos) [] := by
+    constructor
+    · simpa [compileP] using hcode
+    · simpa [compileP] using hpos
+  have hinit : ({} : VM).sem = ({} : Sem) := rfl
+  have h1 : Sim p {} ((compileSs t.body).length + (popNCode t.npop t.endPos).length) (evalP p t) := by
+    unfold evalP
+    rw [← hinit]
+    refine Sim.bind (t1 := (compileSs t.body).length) ?_ ?_
+    · have := compileSs_correct p t.body hwf [] _ {} hpl.left.left rfl
+      simpa using this
+    · intro vm1 s1 _ hs1 hpc1
+      subst hs1
+      have := sim_popN hnp hpl.left.right (vm := vm1) (by simpa using hpc1)
+      simpa using this
+  obtain ⟨n, h1⟩ := h1
+  cases hr : evalP p t with
+  | wrong => exact ⟨0, trivial⟩
+  | err pos msg =>
+    simp only [hr] at h1
+    exact ⟨n, h1⟩
+  | ok s =>
+    simp only [hr] at h1
+    obtain ⟨vm1, hrun, hs, hpc⟩ := h1
+    have hplR := hpl.right
+    rw [opAt_eq] at hplR
+    have hc := hplR.code_eq
+    have hdec : decodeAt p vm1.pc = some { op := .RET, next := vm1.pc + 1 } := by
+      rw [hpc]
+      have := decode0 (A := ([] ++ (compileSs t.body ++ popNCode t.npop t.endPos)).map Prod.fst) .RET rfl (by simpa using hc)
+      simpa using this
+    refine ⟨n + 1, ?_⟩
+    rw [runN_next_then hrun, runN_one, vmStep_exec hdec]
+    subst hs
+    have hstk : (vm1.sem).stack = vm1.stack := rfl
+    simp only [exec, hstk]
+    by_cases he : vm1.stack.isEmpty = true
+    · simp only [he, if_true]
+      exact ⟨_, by simp [VM.sem], rfl⟩
+    · simp only [he, if_false]
+      exact ⟨_, by simp [VM.sem], rfl⟩
 
 end Bclv
